@@ -34,6 +34,7 @@ from liquid2 import is_template_string_token
 from liquid2 import is_token_type
 from liquid2.exceptions import LiquidSyntaxError
 from liquid2.exceptions import LiquidTypeError
+from liquid2.exceptions import LiquidValueError
 from liquid2.exceptions import UnknownFilterError
 from liquid2.expression import Expression
 from liquid2.limits import MAX_STR_INT
@@ -2203,7 +2204,11 @@ def _to_liquid_string(val: Any, *, auto_escape: bool = False) -> str:
     elif isinstance(val, (Empty, Blank)):
         val = ""
     else:
-        val = str(val)
+        try:
+            val = str(val)
+        except ValueError as err:
+            # An integer with more digits than sys.get_int_max_str_digits().
+            raise LiquidValueError(str(err), token=None) from err
 
     if auto_escape:
         val = escape(val)
